@@ -54,6 +54,7 @@ def run(ctx):
     if getattr(ctx, "replay", None):
         rp = json.load(open(ctx.replay))
         replay_cases = [v["detail"]["case"] for v in rp.get("violations", []) if isinstance(v.get("detail"), dict) and v["detail"].get("case")]
+        replay_cases = list({c["id"]: c for c in replay_cases}.values())
         if not replay_cases:
             raise vf.Inconclusive("replay file holds no case")
 
@@ -66,12 +67,12 @@ def run(ctx):
     if dev:
         ctx.notes.append("VF_C15_DEV set: the exhaustive model pass ran with the small bounds only")
     states, trans = mc.distinct + live.distinct, mc.generated + live.generated
+    gen_states = mon_states = 0
 
     # ---- 2. cases with the property's expectations, from TLC
     if replay_cases is None:
         cases, gen = _cases_from_tlc(ctx, tier)
-        states += gen.distinct
-        trans += gen.generated
+        gen_states = gen.distinct
     else:
         cases = replay_cases
     byid = {c["id"]: c for c in cases}
@@ -97,7 +98,7 @@ def run(ctx):
 
     # ---- 3. the real driver
     binary = vf.build_gotest(ctx, ".", ["common", "c15"])
-    nshards = 16
+    nshards = 8 if quick else 16
     rc, out = vf.run_gotest(ctx, binary, "^TestVfC15Run$", env={"VF_RUNS": rp, "VF_WORKERS": nshards}, timeout=1500)
     m = re.search(r"^VFSUMMARY (.*)$", out, re.M)
     if not m or "--- PASS" not in out:
@@ -119,6 +120,17 @@ def run(ctx):
     # ---- 4. TLC over the recorded iterations: property verdicts at every step + conformance
     files = sorted(os.path.join(ctx.tmp, f) for f in os.listdir(ctx.tmp) if re.match(r"c15_trace_\d+\.ndjson$", f))
     files = [f for f in files if os.path.getsize(f) > 0]
+    # a JVM start costs more than thousands of trace steps: few, larger TLC runs in the quick tier
+    nmon = 4 if quick else 16
+    if len(files) > nmon:
+        merged = []
+        for i in range(nmon):
+            mp = os.path.join(ctx.tmp, "c15_mon_%d.ndjson" % i)
+            with open(mp, "w") as o:
+                for f in files[i::nmon]:
+                    o.write(open(f).read())
+            merged.append(mp)
+        files = merged
     mon = collections.defaultdict(list)       # run -> findings
     cnt = dict(traces=0, conforming=0, steps=0)
     with cf.ThreadPoolExecutor(min(len(files), vf.NCPU) or 1) as ex:
@@ -133,8 +145,7 @@ def run(ctx):
                 cnt[k] += done[0][k]
             for f in vf.tlc_printed(r.out, "MONOUT"):
                 mon[f["run"]].append(f)
-            states += r.distinct
-            trans += r.generated
+            mon_states += r.distinct
     good = len(results) - len(env)
     if cnt["traces"] != good:
         raise vf.Inconclusive("TLC validated %d iterations, the driver recorded %d" % (cnt["traces"], good))
@@ -152,6 +163,9 @@ def run(ctx):
             {"query": "QUERY", "exec0": "EXECUTE without values", "exec2": "EXECUTE with 2 values"}[run["prep"]],
             ", skip-metadata" if run["skip"] else "", ", racing schedule %d" % run["sched"] if run["sched"] else "")
 
+    def short(l):
+        return str(l) if len(l) <= 14 else "%s ... (%d in all)" % (str(l[:14])[:-1], len(l))
+
     mismatches = 0
     for res in results:
         if res["env"]:
@@ -160,11 +174,11 @@ def run(ctx):
         exp = byid[run["id"]]["exp"]
         diffs = []
         if res["reqs"] != exp["reqs"]:
-            diffs.append("requests carried paging states %s, the property demands %s" % (res["reqs"], exp["reqs"]))
+            diffs.append("requests carried paging states %s, the property demands %s" % (short(res["reqs"]), exp["reqs"]))
         if len(set(res["reqf"])) > 1:
             diffs.append("the page requests differ in more than the paging state: %s" % sorted(set(res["reqf"])))
         if [list(x) for x in res["rows"]] != exp["delivered"]:
-            diffs.append("rows %s, the property demands %s" % (res["rows"], exp["delivered"]))
+            diffs.append("rows %s, the property demands %s" % (short(res["rows"]), exp["delivered"]))
         if res["ended"] != exp["ended"]:
             diffs.append("ended %s (%s), the property demands %s" % (res["ended"], res["errmsg"] or "no error", exp["ended"]))
         elif res["err"] != exp["err"]:
@@ -201,8 +215,9 @@ def run(ctx):
         exhaustive=not dev,
         cases_from_tlc=len(cases), runs=len(runs), racing_runs=len(runs) - len(cases),
         runs_matching_expectation=good - mismatches, trace_steps=cnt["steps"], traces_conforming=cnt["conforming"],
-        model_configs=[dict(cfg="MC_Paging_full", distinct=mc.distinct, generated=mc.generated, depth=mc.depth),
-                       dict(cfg="liveness", distinct=live.distinct, generated=live.generated)],
+        generator_states=gen_states, trace_spec_states=mon_states,
+        model_configs=[dict(cfg="MC_Paging_live (VF_C15_DEV)" if dev else "MC_Paging_full", distinct=mc.distinct, generated=mc.generated, depth=mc.depth),
+                       dict(cfg="MC_Paging_live" if quick else "MC_Paging_livefull", distinct=live.distinct, generated=live.generated)],
         samples=[dict(case={k: srun[k] for k in ("pages", "q", "kind", "fail", "mode", "start", "prep", "skip", "size", "sched")},
                       expected=byid[srun["id"]]["exp"],
                       observed={k: sample[k] for k in ("reqs", "rows", "ended", "err", "exposed")})],
